@@ -164,7 +164,12 @@ pub fn oracle(prop: &str, ops: &[String], ans: &[String]) -> Vec<Failure> {
             "C15" | "C16" | "C04" => oracles::oracle_td(o, a, prop),
             "C05" | "C18" => oracles::oracle_c18(o, a),
             "C08" => oracles::oracle_c02(o, a),
-            "C19" => oracles::oracle_both_equal(o, a, "cleared/cloned instance differs from fresh/original"),
+            "C19" => {
+                let mut v = oracles::oracle_both_equal(o, a, "cleared/cloned instance differs from fresh/original");
+                v.extend(oracles::oracle_c19_empty(o, a));
+                v
+            }
+            "C03" => oracles::oracle_c03(o, a),
             "C20" => {
                 let mut v = oracles::oracle_both_equal(o, a, "deserialised sketch differs from the original");
                 v.extend(oracles::oracle_c20(o, a));
@@ -194,7 +199,10 @@ pub fn run(prop: &str, tier: &str, seed: u64, outdir: &str) {
         "C04" => experiments::exp_c04(&mut exp),
         "C05" => experiments::exp_c05(&mut exp),
         "C07" => experiments::exp_c07(&mut exp),
-        "C08" => experiments::exp_c08(&mut exp),
+        "C08" => {
+            experiments::exp_c08(&mut exp);
+            experiments::exp_c08_floor(&mut exp);
+        }
         "C11" => experiments::exp_c11(&mut exp),
         _ => {}
     }
@@ -218,7 +226,7 @@ pub fn run(prop: &str, tier: &str, seed: u64, outdir: &str) {
     let stats: Vec<String> = ctx.stats.iter().map(|(k, v)| format!("\"{}\": {}", json_escape(k), v)).collect();
     let fl: Vec<String> = fails
         .iter()
-        .take(50)
+        .take(400)
         .map(|x| format!("{{\"case\": {}, \"line\": {}, \"msg\": \"{}\"}}", x.case, x.line, json_escape(&x.msg)))
         .collect();
     writeln!(
